@@ -38,6 +38,30 @@ def init(b, mem):
     memory_id = mem
 
 
+def _verif_point(name, ymin):
+    """
+    Verification hook: does nothing unless AEGEAN_VERIF=1 and
+    AEGEAN_VERIF_SCHEDULE names a json file {"delays": [[point, ymin, sec]],
+    "faults": [[point, ymin]]} of injected delays / faults per stripe.
+    """
+    if os.environ.get('AEGEAN_VERIF') != '1':
+        return
+    sched = os.environ.get('AEGEAN_VERIF_SCHEDULE')
+    if not sched or not os.path.exists(sched):
+        return
+    import json
+    import time
+    with open(sched) as f:
+        plan = json.load(f)
+    for point, y, sec in plan.get('delays', []):
+        if point == name and y == ymin:
+            time.sleep(sec)
+    for point, y in plan.get('faults', []):
+        if point == name and y == ymin:
+            raise RuntimeError(
+                "injected fault at {0} in stripe {1}".format(name, ymin))
+
+
 def sigmaclip(arr, lo, hi, reps=10):
     """
     Perform sigma clipping on an array, ignoring non finite values.
@@ -161,6 +185,7 @@ def sigma_filter(filename, region, step_size, box_size, shape, domask,
     """
 
     ymin, ymax = region
+    _verif_point('start', ymin)
     logging.debug('rows {0}-{1} starting at {2}'.format(ymin,
                   ymax, strftime("%Y-%m-%d %H:%M:%S", gmtime())))
 
@@ -251,7 +276,9 @@ def sigma_filter(filename, region, step_size, box_size, shape, domask,
 
     # wait for all to complete (the barrier is cyclic: no reset needed, and a
     # reset can break a faster worker that is already waiting again)
+    _verif_point('pre_wait1', ymin)
     barrier.wait()
+    _verif_point('post_wait1', ymin)
 
     logging.debug("background subtraction")
     # subtract the background from every row that can enter an rms box. The
@@ -280,7 +307,9 @@ def sigma_filter(filename, region, step_size, box_size, shape, domask,
 
     if domask:
         # wait for all to complete
+        _verif_point('pre_wait2', ymin)
         barrier.wait()
+        _verif_point('post_wait2', ymin)
 
         logging.debug("applying mask")
         mask = ~np.isfinite(
@@ -289,6 +318,7 @@ def sigma_filter(filename, region, step_size, box_size, shape, domask,
         ibkg[ymin:ymax, :][mask] = np.nan
         irms[ymin:ymax, :][mask] = np.nan
         logging.debug("... done applying mask")
+    _verif_point('end', ymin)
     logging.debug('rows {0}-{1} finished at {2}'.format(ymin,
                   ymax, strftime("%Y-%m-%d %H:%M:%S", gmtime())))
     return
